@@ -32,11 +32,11 @@ def check(pid, level, text, note, technique, ref):
     )
 
 check("C02", "exploration",
-      "Seeded search over generated seek/apply/current_pos/failed-request histories on all seven cipher types, in release, overflow-checked and opt-level-0 builds and on simulated hosts of every SIMD level; every step is compared with a position model and an independent ChaCha spec model, and a mismatch is decided by comparing different histories of the real code. Histories are unbounded, so sampling with model-state coverage measurement is the honest level.",
+      "Seeded search over generated seek/apply/current_pos/failed-request histories on all seven cipher types, in release, overflow-checked and opt-level-0 builds, on simulated hosts of every SIMD level, on no-std/portable/target-cpu=native builds and on a big-endian host (Miri); every step is compared with a position model and an independent ChaCha spec model, and a mismatch is decided by comparing different histories of the real code. Single calls with 2-4 GiB slices are compared with the same bytes in pieces. Histories are unbounded, so sampling with model-state coverage measurement is the honest level.",
       "Trusted: the ChaCha spec model (validated against RFC 7539 / draft-xchacha / Bernstein vectors at every start), the position model, rustc/cargo. Not covered: positions reachable only by streaming > 2^64 bytes.",
       "deterministic simulation: seeded operation histories + reference model + real-code differential", "6.1")
 check("C11", "exploration",
-      "Same engine as C02 with a boundary mix whose injected fault is keystream exhaustion landing in every buffered state (empty buffer, buffered tail, lazily pending block, 4-block path), exact-fit requests, seeks of every integer type at/past the limit, and ordinary operations after every failure; atomicity (data, position, usability) is checked after each failed call.",
+      "Same engine as C02 with a boundary mix whose injected fault is keystream exhaustion landing in every buffered state (empty buffer, buffered tail, lazily pending block, 4-block path), exact-fit requests, seeks of every integer type at/past the limit, and ordinary operations after every failure; atomicity (data, position, usability) is checked after each failed call. Requests longer than the whole keystream (2^38+1 bytes in one never-touched slice) must be refused at once (watchdog). Also on a big-endian host (Miri).",
       "Trusted: limit model (2^38 bytes for Ietf, none below 2^64 bytes otherwise), spec model as filter, real-code differential as decider. Relaxed: requests beyond 2^64 bytes on 64-bit-counter variants.",
       "deterministic simulation with fault injection (keystream exhaustion) + reference model", "6.2")
 
@@ -45,7 +45,7 @@ check("C03", "exploration",
       "Trusted: hook H1 takes exactly the arm a real CPU of that level would take (its match arms mirror the detection chains); the real CPU must support the simulated level (AVX2 here). For vector operations only cross-backend identity is judged. One open known finding: JH digests on the big-endian host (known_findings.json).",
       "deterministic simulation: simulated CPU-capability hosts (run-time via hook, build-time via features) + cross-host transcript equality", "6.5")
 check("C08", "exploration",
-      "Seeded search over update/chain/clone/reset/finalize_reset/finalize/drop histories on interleaved instances of all 15 hash types (+4 more Skein output sizes), pieces aimed at every buffer fill level and padding boundary; every digest is compared with the same type's one-shot digest of the modelled byte string, so only history dependence (not spec conformance) can raise an alarm.",
+      "Seeded search over update/chain/clone/clone_from/reset/finalize_reset/finalize_fixed_reset/finalize_into(_reset)/finalize_into_dirty+reset/finalize/drop histories on interleaved instances of all 15 hash types (+9 more Skein output sizes), pieces aimed at every buffer fill level and padding boundary, counter jumps (H2) so that chunking is also exercised next to counter carries, update with a non-idempotent AsRef argument; every digest is compared with the same type's one-shot digest of the modelled byte string, so only history dependence (not spec conformance) can raise an alarm. One update call of 512 MiB / 4 GiB is compared with the same bytes in 1 MiB pieces.",
       "Trusted: the byte-list model; Digest::digest of the same type as oracle. Runs are capped at 64 KiB.",
       "deterministic simulation: seeded operation histories + byte-list reference model", "6.6")
 check("C14", "exploration",
@@ -53,7 +53,7 @@ check("C14", "exploration",
       "Trusted: the counter model; the spec block function only to recognise position errors (a block that equals the spec block of a nearby counter). Other spec deviations are C01 territory.",
       "deterministic simulation: seeded operation histories on simulated hosts + state model + real-code differential", "6.3")
 check("C15", "exploration",
-      "Seeded set/get/refill/derive histories: round trip and isolation of both stream parameters over the full 64-bit range, equality of state and following output with a state created directly through new(), and the two stream-equality predicates against their definition on pairs that differ in exactly one word (or nothing, or only position).",
+      "Seeded set/get/refill/derive histories: round trip and isolation of both stream parameters over the full 64-bit range, equality of state and following output with a state created directly through new(), and the two stream-equality predicates against their definition on pairs that differ in exactly one word, in several words by the same mask, or only in position; on std (three profiles), portable, five no-std target-feature builds, target-cpu=native and two layout-randomised nightly builds.",
       "Trusted: the four-word parameter model and the statement's definition of stream equality.",
       "deterministic simulation: seeded operation histories + state model", "6.4")
 
